@@ -230,7 +230,7 @@ func init() {
 	reg(&PropSpec{
 		ID: "C12", Prefix: "vh_C12_",
 		Quick:    Tier{Params: map[string]int{"ref_len": 2, "alpha_len": 4, "abs_tail": 2}},
-		Thorough: Tier{Params: map[string]int{"ref_len": 3, "alpha_len": 5, "abs_tail": 3, "hop_len": 4}},
+		Thorough: Tier{Params: map[string]int{"ref_len": 2, "alpha_len": 5, "abs_tail": 2, "hop_len": 4}},
 		Bounds: []string{
 			"two hops (vh_C12_twohops): 4 base / first-hop pairs (two with a target URL that has the referring URL as a string prefix), second reference of 1..hop_len symbolic bytes over the alphabet, served first document, refusing loader for the rest",
 			"vh_C12_locate: $ref strings of every length 0..ref_len with every byte unconstrained (256 values)",
